@@ -385,8 +385,10 @@ pub fn read_conference_create_response(cc_response: &mut dyn Read) -> RdpResult<
     }
 
     // All section are important
+    let server_net = result.get(&MessageType::ScNet).ok_or(Error::RdpError(RdpError::new(RdpErrorKind::InvalidData, "GCC: no server network data block")))?;
+    let server_core = result.get(&MessageType::ScCore).ok_or(Error::RdpError(RdpError::new(RdpErrorKind::InvalidData, "GCC: no server core data block")))?;
     Ok(ServerData{
-        channel_ids: cast!(DataType::Trame, result[&MessageType::ScNet]["channelIdArray"])?.into_iter().map(|x| cast!(DataType::U16, x).unwrap()).collect(),
-        rdp_version: Version::from(cast!(DataType::U32, result[&MessageType::ScCore]["rdpVersion"])?)
+        channel_ids: cast!(DataType::Trame, server_net["channelIdArray"])?.into_iter().map(|x| cast!(DataType::U16, x).unwrap()).collect(),
+        rdp_version: Version::from(cast!(DataType::U32, server_core["rdpVersion"])?)
     })
 }
